@@ -359,13 +359,10 @@ func (sw *SingleAddressWallet) selectUTXOs(amount types.Currency, inputs int, us
 	// fund the transaction using the largest utxos first
 	var selected []types.SiacoinElement
 	var inputSum types.Currency
-	for i, sce := range utxos {
-		if inputSum.Cmp(amount) >= 0 {
-			utxos = utxos[i:]
-			break
-		}
-		selected = append(selected, sce.Share())
-		inputSum = inputSum.Add(sce.SiacoinOutput.Value)
+	for len(utxos) > 0 && inputSum.Cmp(amount) < 0 {
+		selected = append(selected, utxos[0].Share())
+		inputSum = inputSum.Add(utxos[0].SiacoinOutput.Value)
+		utxos = utxos[1:] // the remainder is what defragging may draw from
 	}
 
 	if inputSum.Cmp(amount) < 0 && useUnconfirmed {
